@@ -70,7 +70,12 @@ func (s Set[T]) Has(val T) bool {
 func (s Set[T]) Copy() Set[T] {
 	ret := NewSet(s.rules)
 	for k, v := range s.vals {
-		ret.vals[k] = v
+		// Each bucket gets its own backing array: Add appends to a bucket in
+		// place when it has spare capacity, which must not be visible through
+		// the other set.
+		bucket := make([]T, len(v))
+		copy(bucket, v)
+		ret.vals[k] = bucket
 	}
 	return ret
 }
